@@ -268,6 +268,22 @@ CLAIMED = {
              "the Tokio actor, the io_uring backend's clock and PONG placement in the egress buffer are not part of these theorems.",
         note=COMMON_NOTE + "Engine time is scripted via a cfg(rzmq_verif) accessor; the session actor's interval timer is assumed to tick at least every HEARTBEAT_IVL.",
         design="§8 C19"),
+    "C20": dict(
+        engine="M10 Pool + M2 Engine",
+        technique="Lean 4 theorems: equivalence of everything the shared engine decides for any two segmentations/timings of the same byte "
+                  "stream (corollary of C04), and invariants of the send-buffer pool by induction over every history of acquire / lease / "
+                  "hand-over / drop / release; tie: lock-step correspondence on the real SendBufferPool, and the C01/C02/C14 workload "
+                  "generators replayed with IO_URING_SESSION_ENABLED against three configurations of the backend, whose canonical results must "
+                  "equal the model's predictions (= the Tokio backend's), plus churn and fan-in scenarios",
+        text="Proof over the models: for the same peer bytes, however the two backends cut and time their reads, the engine ends in the same "
+             "state and emits the same handshake outcome, deliveries in order and errors; the pool's bookkeeping stays consistent under every "
+             "history (including double and unknown releases), never hands out a buffer that is in use, gets every buffer back once all are "
+             "released, a lease dropped before hand-over returns its buffer by itself, oversize data never takes a buffer. 7 theorems. KNOWN "
+             "FINDING C20:uring-more-than-8-connections (a 9th simultaneous connection of a socket is never attached; Tokio serves it), "
+             "replayed on every run. Partial: the receive ring, the worker's SQE/CQE state machine, descriptor handling and the spill-over "
+             "queue are covered by the equivalence scenarios only.",
+        note=COMMON_NOTE + "io_uring is a per-process singleton: each backend configuration is a separate harness process.",
+        design="§8 C20"),
 }
 
 NOT_YET = "check not built yet (work in progress; see DESIGN.md build order)"
